@@ -201,7 +201,7 @@ class Function(object):
             if s.startswith('switch ') and s.endswith('['):
                 while not body[k].strip().endswith(']'):
                     k += 1; s += ' ' + body[k].strip()
-            s = re.sub(r',\s*!\w+ !\d+', '', s)
+            s = re.sub(r',\s*![\w.]+ !\d+', '', s)
             s = re.sub(r'\s*;.*$', '', s) if '; preds' in s else s
             self.blocks[cur].append(s)
             k += 1
